@@ -1098,6 +1098,16 @@ func (g *Gen) Step() string {
 	case a < 58: // invalid at position k
 		n := 1 + rng.Intn(4)
 		mode := rng.Intn(3)
+		if rng.Chance(1, 4) && w.V1Allowed() {
+			// an already pooled transaction named twice (the repetition double-spends), then a new one: the
+			// set fails at a transaction whose id is pooled, after pooled ids only
+			if known := g.StandaloneV1(); len(known) > 0 {
+				a := known[rng.Intn(len(known))]
+				set := append([]types.Transaction{a, a}, g.FreshV1(1+rng.Intn(2), false)...)
+				g.AddV1(set, nil, "pooled-twice-then-new", 1, false)
+				return "invalid-known-twice-v1"
+			}
+		}
 		if rng.Chance(1, 3) {
 			// a same-id copy of an already pooled transaction with a broken signature, next to new ones
 			if rng.Bool() && w.V1Allowed() {
